@@ -50,7 +50,7 @@ def placements(prog, rng, val):
                 p['nodes'][n].setdefault('plan', {})['ret'] = ['lit', lit]
                 yield (f'ret:{n}:{lit!r}', retag(p), {})
         if node.get('kind') == 'decider':
-            for unknown in ('ZZZ', None, 0, ''):
+            for unknown in ('ZZZ', None, 0, '', ['L0'], {}):      # incl. unhashable values: they equal no declared label
                 if unknown in node['plan']['labels']:
                     continue
                 p = copy.deepcopy(prog)
